@@ -47,7 +47,7 @@ REPL_FIELDS = ["year", "month", "day", "hour", "minute", "second", "microsecond"
 LEAN_TY = {"Int": "Int", "OptInt": "Option Int", "Bool": "Bool", "RD": "RD", "Temporal": "RDM.Temporal", "TD": "Int",
            "OptWd": "Option (Int × Option Int)", "Wd": "(Int × Option Int)", "OptWdArg": "Option RDM.WdArg",
            "Repl": "RDPy.Repl", "Kw": "RDM.Kw", "CmpOp": "RDPy.CmpOp", "OptPair": "Option (Int × Int)",
-           "HashKey": "List RDM.HashElt"}
+           "HashKey": "List RDM.HashElt", "Dy": "RDPy.Dy", "Pow2": "RDPy.Pow2"}
 RESERVED = {"end", "from", "at", "fun", "do", "then", "else", "if", "open", "in", "let", "have", "show", "by", "match"}
 
 
@@ -119,6 +119,9 @@ class Tr:
                 return (str(v) if v >= 0 else "(%d)" % v), "Int"
             if isinstance(v, str):
                 return St(v), "Static"
+            if isinstance(v, float) and v == int(v) and abs(v) < 2 ** 53:
+                # an integer-valued float literal (1e6) read on the integer domain
+                return (str(int(v)) if v >= 0 else "(%d)" % int(v)), "Int"
             raise Untranslatable("constant %r" % (v,))
         if isinstance(e, ast.Name):
             if e.id in self.static:
@@ -244,6 +247,10 @@ class Tr:
                 return ("(%s / %s)" % (l, r) if poslit else "(Py.fdiv %s %s)" % (l, r)), "Int"
             if op is ast.Mod:
                 return ("(%s %% %s)" % (l, r) if poslit else "(Py.fmod %s %s)" % (l, r)), "Int"
+        if tl == "Int" and tr == "Dy" and op is ast.Mult:
+            return "(RDPy.intMulDy %s %s)" % (l, r), "Dy"
+        if tl == "Int" and tr == "Pow2" and op is ast.Div and l == "1":
+            return "(RDPy.recipPow2 %s)" % r, "Dy"
         if tl == "Temporal" and tr == "TD" and op is ast.Add:
             t = self.fresh("x")
             pre.append((t, "RDPy.addTd %s %s" % (l, r), "Temporal"))
@@ -296,8 +303,19 @@ class Tr:
             n = f.id
             if n in ("int", "float") and len(e.args) == 1:
                 t, ty = self.E(e.args[0], pre)
+                if ty == "Dy":                  # a float that is exactly m / 2^k (Model/RDPy.lean)
+                    return (t, "Dy") if n == "float" else ("(RDPy.truncDy %s)" % t, "Int")
+                if ty == "Pow2" and n == "float":
+                    return t, "Pow2"
                 if ty not in ("Int", "OptInt"): raise Untranslatable("%s() of %s" % (n, ty))
                 return t, ty                    # identity on the integer domain
+            if n == "round" and len(e.args) in (1, 2):
+                t, ty = self.E(e.args[0], pre)
+                if ty != "Int": raise Untranslatable("round() of %s" % ty)
+                if len(e.args) == 2 and not (isinstance(e.args[1], ast.Constant) and isinstance(e.args[1].value, int)
+                                             and e.args[1].value >= 0):
+                    raise Untranslatable("round(x, n) with a non-literal / negative n")
+                return t, "Int"                 # rounding an integer to >= 0 decimals is the identity
             if n == "abs":
                 t, ty = self.E(e.args[0], pre)
                 if ty != "Int": raise Untranslatable("abs of %s" % ty)
@@ -393,6 +411,11 @@ class Tr:
         if cls == "relativedelta": return tx == "RD"
         if cls == "datetime.timedelta": return tx == "TD3"
         if cls == "datetime.date": return tx == "Temporal"
+        if cls == "float":
+            # the translated domain is integer-valued (Int / Optional[int] fields): no value is a float.  Float-valued
+            # fields (and the non-finite rejection of __init__) are covered by C16's executable oracle only.
+            if tx not in ("Int", "OptInt"): raise Untranslatable("isinstance(%s, float)" % tx)
+            return False
         if cls == "datetime.datetime":
             if tx != "Temporal": return False
             return "(RDPy.isDatetime %s = true)" % x
@@ -404,7 +427,16 @@ class Tr:
     # ------------------------------------------------------------------ conditions: Prop text or python bool
     def C(self, e, pre):
         if isinstance(e, ast.BoolOp):
-            vals = [self.C(v, pre) for v in e.values]
+            if isinstance(e.op, ast.And):
+                # Python's `and` does not evaluate what follows a false operand: a STATICALLY false operand (e.g.
+                # `isinstance(x, float)` on the integer domain) ends the translation of the conjunction there
+                vals = []
+                for v in e.values:
+                    c = self.C(v, pre)
+                    vals.append(c)
+                    if c is False: return False
+            else:
+                vals = [self.C(v, pre) for v in e.values]
             if isinstance(e.op, ast.And):
                 if any(v is False for v in vals): return False
                 vals = [v for v in vals if v is not True]
@@ -983,6 +1015,9 @@ RD_SPECS = [
     RFn("relativedelta.__add__", "addTd", [("other", "TD3")], "RD"),
     RFn("relativedelta.__sub__", "subRd", [("other", "RD")], "RD"),
     RFn("relativedelta.__mul__", "mulInt", [("other", "Int")], "RD"),
+    RFn("relativedelta.__mul__", "mulDy", [("other", "Dy")], "RD"),
+    RFn("relativedelta.__div__", "divPow2", [("other", "Pow2")], "RD"),
+    RFn("relativedelta.normalized", "normalized", [], "RD"),
     RFn("relativedelta.__bool__", "bool", [], "Bool"),
     RFn("relativedelta.__eq__", "eq", [("other", "RD")], "Bool"),
     RFn("relativedelta.__hash__", "hashKey", [], "HashKey"),
